@@ -480,6 +480,12 @@ func (x *Exec) evalSpecCall(st *State, e *ast.CallExpr) *Value {
 			x.assume(st, x.b.Forall([]*Term{i}, x.b.Eq(rd, def), []*Term{rd}))
 		}
 		return out
+	case "boxvalue":
+		// boxvalue(x): the respValue whose data is x
+		v := x.eval(st, e.Args[0])
+		rt := x.eng.typeByName("respValue")
+		anyT := x.eng.typeByName("any")
+		return (&Value{T: rt, L: map[string]*Term{}}).with("data", x.box(st, v, anyT))
 	case "emptymap":
 		v := x.eval(st, e.Args[0])
 		return scalarV(boolT, x.mapIsEmpty(st, v.scalar()))
